@@ -44,6 +44,10 @@ pub proof fn axiom_stable_sort<T>(s: Seq<T>, k: spec_fn(T) -> int)
         stable_sort(s, k).len() == s.len(),
         sorted_by_rank(stable_sort(s, k), k),
 { }
+// a permutation keeps pairwise different elements pairwise different
+#[verifier::external_body]
+pub proof fn axiom_stable_sort_no_duplicates<T>(s: Seq<T>, k: spec_fn(T) -> int)
+    requires s.no_duplicates() ensures stable_sort(s, k).no_duplicates() { }
 #[verifier::external_body]
 pub fn vf_sort_by_key<T, K: KeyRank, F: Fn(&T) -> K>(v: &mut Vec<T>, f: F)
     requires forall|x: T| #[trigger] f.requires((&x,)),
@@ -56,5 +60,19 @@ pub fn vf_reverse<T>(v: &mut Vec<T>) ensures final(v)@ == old(v)@.reverse() { un
 // v.into_iter().take(n).collect()
 #[verifier::external_body]
 pub fn vf_take<T>(v: Vec<T>, n: usize) -> (r: Vec<T>)
+    ensures r@ == v@.take(if n as int <= v@.len() { n as int } else { v@.len() as int })
+{ unimplemented!() }
+// slice::windows(n): panics for n == 0; otherwise the len-n+1 contiguous windows in order
+#[verifier::external_body]
+pub fn vf_windows<T>(v: &Vec<T>, n: usize) -> (r: Vec<&[T]>)
+    requires n > 0
+    ensures r@.len() == (if v@.len() >= n { v@.len() - n + 1 } else { 0 }),
+        forall|i: int| 0 <= i < r@.len() ==> (#[trigger] r@[i])@ == v@.subrange(i, i + n as int)
+{ unimplemented!() }
+#[verifier::external_body]
+pub fn vf_slice_to_vec<T>(s: &[T]) -> (r: Vec<T>) ensures r@ == s@ { unimplemented!() }
+// `v.iter().take(n).cloned().collect()`
+#[verifier::external_body]
+pub fn vf_take_cloned<T>(v: &Vec<T>, n: usize) -> (r: Vec<T>)
     ensures r@ == v@.take(if n as int <= v@.len() { n as int } else { v@.len() as int })
 { unimplemented!() }
